@@ -43,9 +43,20 @@ OPCODE_FILES = ('tokens/base_token.py', 'tokens/composite_base_token.py', 'token
 # ----------------------------------------------------------------------------------------------
 # workbook corpus
 
-def _corpus_item(seed):
-    """A small workbook + the entry spellings worth trying on it."""
+N_CATALOG = 6
+
+
+def _corpus_item(seed, idx=None):
+    """A small workbook + the entry spellings worth trying on it.  The first N_CATALOG indices of a corpus are catalog
+    items: together they contain every formula template of execsim exactly once, whatever the seed - so that no translator
+    is missing from a corpus by bad luck (a change that only shows in AND/OR went unseen that way once)."""
     r = core.rng(seed, 'corpus')
+    if idx is not None and idx < N_CATALOG:
+        from engines import execsim
+        names = [t[0] for t in execsim.TEMPLATES][idx::N_CATALOG]
+        spec, meta = execsim.gen_workbook(r, {'wholecol': idx % 2 == 0, 'poison': False, 'today': False, 'only_templates': names})
+        ents = [list(f) for f in meta['formulas']][:5] + [[0, 0, 0]]
+        return {'kind': 'catalog', 'spec': spec, 'entries': ents}
     kind = r.choice(['safe', 'safe', 'safe', 'unsafe', 'malformed', 'column', 'swap', 'rich', 'rich', 'rich'])
     if kind == 'rich':
         return _rich_item(r)
@@ -124,7 +135,7 @@ def _rich_item(r):
 
 
 def corpus(corpus_seed, n):
-    return [_corpus_item(core.derive(corpus_seed, 'corpus-item', i)) for i in range(n)]
+    return [_corpus_item(core.derive(corpus_seed, 'corpus-item', i), i) for i in range(n)]
 
 
 # ----------------------------------------------------------------------------------------------
@@ -147,7 +158,8 @@ def gen_plan(seed, cfg):
     }
     swarm.update(cfg.get('swarm', {}))
     n_wb = r.choice([2, 2, 3, 4])
-    items = [_corpus_item(core.derive(cseed, 'corpus-item', r.randrange(cn))) for _ in range(n_wb)]
+    idxs = [r.randrange(cn) for _ in range(n_wb)]
+    items = [_corpus_item(core.derive(cseed, 'corpus-item', i_), i_) for i_ in idxs]
     # make title-keyed entries meaningful across workbooks: sometimes wb1 is wb0 with the sheets swapped
     if r.random() < 0.35:
         sw = copy.deepcopy(items[0])
@@ -159,7 +171,8 @@ def gen_plan(seed, cfg):
     if swarm['rewrites']:
         for w in workbooks:
             if r.random() < 0.6:
-                it = _corpus_item(core.derive(cseed, 'corpus-item', r.randrange(cn)))
+                i_ = r.randrange(cn)
+                it = _corpus_item(core.derive(cseed, 'corpus-item', i_), i_)
                 w['versions'].append(it['spec'])
     clients = []
     outn = 0
